@@ -101,8 +101,87 @@ def run_case(timeout, retry_interval, ready_script, blocks_before_success):
     return pr
 
 
-def search():
+# ---------------------------------------------------------------------------------------------------------------------
+# the send loops of the real SocketStreamTransport: every write attempt would block first (the scripted selector decides how
+# long until the socket is writable), then accepts a few bytes - the budget must cover the whole operation
+def run_send_case(method, timeout, waits, chunk):
+    import socket as _s
+
+    from easynetwork.lowlevel.api_sync.transports.socket import SocketStreamTransport
+
+    CLOCK[0] = 0.0
+    FakeSelector.script = list(waits)
+    FakeSelector.waited = 0.0
+    FakeSelector.calls = 0
+    FakeSelector.unbounded = 0
+    state = {"attempt": 0}
+
+    class S(_s.socket):
+        def _gate(self):
+            state["attempt"] += 1
+            if state["attempt"] > 400:
+                raise RuntimeError("livelock")
+            if state["attempt"] % 2 == 1:
+                raise BlockingIOError(11, "scripted: would block")
+
+        def send(self, data, flags=0):
+            self._gate()
+            return min(chunk, len(memoryview(data)))
+
+        def sendmsg(self, buffers, *a):
+            self._gate()
+            return min(chunk, sum(len(memoryview(b)) for b in buffers))
+
+    a, b = _s.socketpair()
+    sock = S(a.family, a.type, a.proto, fileno=a.detach())
+    tr = SocketStreamTransport(sock, 1000.0, selector_factory=FakeSelector)
+    payload = [b"x" * chunk for _ in range(len(waits))]
+    outcome = None
+    try:
+        if method == "send_all":
+            tr.send_all(b"".join(payload), timeout)
+        else:
+            tr.send_all_from_iterable(payload, timeout)
+        outcome = "returned"
+    except TimeoutError:
+        outcome = "TimeoutError"
+    except RuntimeError as e:
+        outcome = "RuntimeError:" + str(e)
+    finally:
+        sock.close()
+        b.close()
+    pr = []
+    eps = 1e-9
+    if timeout != math.inf and FakeSelector.waited > timeout + eps:
+        pr.append({"rule": "total blocking time of one send operation must not exceed the timeout T (C11)", "waited": FakeSelector.waited, "T": timeout,
+                   "method": method})
+    if outcome == "TimeoutError" and CLOCK[0] + eps < timeout:
+        pr.append({"rule": "TimeoutError only after the whole budget elapsed (C11)", "elapsed": CLOCK[0], "T": timeout, "method": method})
+    if outcome and outcome.startswith("RuntimeError:livelock"):
+        pr.append({"rule": "the operation must end (C04/C11)", "outcome": outcome})
+    return pr
+
+
+def search_send():
     cases = 0
+    for method in ("send_all", "send_all_from_iterable"):
+        for timeout in (0.3, 0.5, math.inf):
+            for n in (1, 2, 3, 4):
+                for waits in itertools.product((0.05, 0.2), repeat=n):
+                    cases += 1
+                    pr = run_send_case(method, timeout, waits, 3)
+                    if pr:
+                        enc = lambda x: "inf" if x == math.inf else x
+                        return {"reproduced": True, "mode": "send", "method": method, "timeout": enc(timeout), "waits": list(waits), "chunk": 3,
+                                "violation": pr, "cases": cases}
+    return {"reproduced": False, "cases": cases, "exhaustive": True}
+
+
+def search():
+    r = search_send()
+    if r["reproduced"]:
+        return r
+    cases = r["cases"]
     for timeout in (0.0, 0.2, 0.5, math.inf):
         for ri in (0.05, 0.3, math.inf):
             for n in range(0, 5):
@@ -126,6 +205,10 @@ def main():
     dec = lambda x: math.inf if x == "inf" else x
     if a.replay:
         w = json.load(open(a.replay))["witness"]
+        if w.get("mode") == "send":
+            pr = run_send_case(w["method"], dec(w["timeout"]), w["waits"], w["chunk"])
+            print(json.dumps({"reproduced": bool(pr), "violation": pr}))
+            return 1 if pr else 0
         pr = run_case(dec(w["timeout"]), dec(w["retry_interval"]), [dec(x) for x in w["ready_script"]], w["blocks_before_success"])
         print(json.dumps({"reproduced": bool(pr), "violation": pr}))
         return 1 if pr else 0
